@@ -159,3 +159,38 @@ V('c10-fix-reparenting', 'C10', 'hl7apy/core.py',
   "    def _set_parent(self, parent):\n        self._parent = parent",
   "    def _set_parent(self, parent):\n        old = getattr(self, '_parent', None)\n        if old is not None and parent is not None and old is not parent:\n            old.children.remove(self)\n        self._parent = parent",
   expect='fixed:C10-R')
+
+# ---------------------------------------------------------------- C09
+V('c09-replace-appends', 'C09', 'hl7apy/core.py',
+  "            self.remove(old_child)\n            self.insert(list_index, new_child, by_name_index)",
+  "            self.remove(old_child)\n            self.insert(list_index, new_child)", rule='C09-I')
+V('c09-replace-swapped-positions', 'C09', 'hl7apy/core.py',
+  "            self.insert(list_index, new_child, by_name_index)", "            self.insert(by_name_index, new_child, list_index)",
+  rule='C09-I')
+V('c09-replace-uses-length', 'C09', 'hl7apy/core.py',
+  "            list_index = self.list.index(old_child)", "            list_index = len(self.list) - 1", rule='C09-I')
+V('c09-insert-ignores-byname', 'C09', 'hl7apy/core.py',
+  "                    self.indexes[child.name].insert(by_name_index, child)",
+  "                    self.indexes[child.name].insert(0, child)", rule='C09-P')
+V('c09-insert-at-end', 'C09', 'hl7apy/core.py', "            self.list.insert(index, child)", "            self.list.insert(len(self.list), child)",
+  rule='C09-P')
+V('c09-remove-by-name-first', 'C09', 'hl7apy/core.py',
+  "        child = self.child_at_index(name, index)\n        self.remove(child)\n        return child",
+  "        child = self.child_at_index(name, 0)\n        self.remove(child)\n        return child", rule='C09-X')
+V('c09-proxy-del-first', 'C09', 'hl7apy/core.py', "        self.element_list.remove(self.list[index])",
+  "        self.element_list.remove(self.list[0])", rule='C09-X')
+V('c09-set-ignores-index', 'C09', 'hl7apy/core.py',
+  "        child_to_remove = self.child_at_index(child_name, index)", "        child_to_remove = self.child_at_index(child_name, 0)",
+  rule='C09-S')
+V('c09-set-proxy-by-reference', 'C09', 'hl7apy/core.py',
+  "        if isinstance(value, ElementProxy):\n            value = value[0].to_er7()", "        if isinstance(value, ElementProxy):\n            value = value[0]",
+  rule='C09-V')
+V('c09-set-always-appends', 'C09', 'hl7apy/core.py',
+  "        if child_to_remove is None:\n            self.append(child)\n        else:\n            self.replace_child(child_to_remove, child)",
+  "        if child_to_remove is not None:\n            self.remove(child_to_remove)\n        self.append(child)", rule='C09-S')
+V('c09-finder-wrong-index', 'C09', 'hl7apy/core.py', "                return self.indexes[n][i]", "                return self.indexes[n][-1]",
+  rule='C09-X')
+V('c09-fix-setitem', 'C09', 'hl7apy/core.py',
+  "        child_name = self.list[index].name\n        self.set(child_name, value, index)",
+  "        old = self.list[index]\n        self.set(old.name, value, self.indexes[old.name].index(old))",
+  expect='fixed:C09-K')
